@@ -7,9 +7,15 @@ package sodiumstream
 
 func Available() bool { return false }
 
-func ChaCha20IETFXorIC(msg, nonce12 []byte, ic uint32, key []byte) []byte { panic("sodiumstream: built without cgo") }
-func XChaCha20XorIC(msg, nonce24 []byte, ic uint64, key []byte) []byte     { panic("sodiumstream: built without cgo") }
-func HChaCha20(in16, key []byte) [32]byte                                 { panic("sodiumstream: built without cgo") }
-func Poly1305(msg []byte, key *[32]byte) [16]byte                         { panic("sodiumstream: built without cgo") }
-func Poly1305Verify(tag *[16]byte, msg []byte, key *[32]byte) bool        { panic("sodiumstream: built without cgo") }
-func Poly1305EVP(msg []byte, key *[32]byte) (tag [16]byte, ok bool)       { return tag, false }
+func ChaCha20IETFXorIC(msg, nonce12 []byte, ic uint32, key []byte) []byte {
+	panic("sodiumstream: built without cgo")
+}
+func XChaCha20XorIC(msg, nonce24 []byte, ic uint64, key []byte) []byte {
+	panic("sodiumstream: built without cgo")
+}
+func HChaCha20(in16, key []byte) [32]byte         { panic("sodiumstream: built without cgo") }
+func Poly1305(msg []byte, key *[32]byte) [16]byte { panic("sodiumstream: built without cgo") }
+func Poly1305Verify(tag *[16]byte, msg []byte, key *[32]byte) bool {
+	panic("sodiumstream: built without cgo")
+}
+func Poly1305EVP(msg []byte, key *[32]byte) (tag [16]byte, ok bool) { return tag, false }
